@@ -26,6 +26,25 @@ impl Parser {
                 .user_data()
                 .has_name_been_mapped_in_function(ident.name())
         } else {
+            // inside a function that declared a `const` of this name, the name stands for that
+            // constant: `modify` would bind it to the captured variable, and a later `name = ..`
+            // or `name += ..` in this function would then write the constant
+            if let Some(own) = input
+                .user_data()
+                .has_name_been_mapped_in_function(ident.name())
+            {
+                if own.is_const() && !own.is_instance_callback_variable().unwrap_or(false) {
+                    return Err(vec![new_err(
+                        input.as_span(),
+                        &input.user_data().get_source_file_name(),
+                        format!(
+                            "cannot modify `{0}`: in this function `{0}` is a `const`",
+                            ident.name()
+                        ),
+                    )]);
+                }
+            }
+
             // `modify` addresses the captured variable, not a same-named variable that the
             // innermost scope may have declared itself (see `can_modify_if_applicable`)
             input
